@@ -94,9 +94,32 @@ fn main() {
                     if let (Some(l), Some(t), Some(w), Some(h)) = (n(4), n(5), n(6), n(7)) {
                         img.set_image_region(jxl_oxide::CropInfo { left: l, top: t, width: w, height: h });
                     }
-                    for k in 0..img.num_loaded_keyframes() {
+                    // VERIF_ORDER=2,0,1 renders the keyframes in that order (default: ascending)
+                    let order: Vec<usize> = match std::env::var("VERIF_ORDER") {
+                        Ok(o) => o.split(',').filter_map(|s| s.parse().ok()).collect(),
+                        Err(_) => (0..img.num_loaded_keyframes()).collect(),
+                    };
+                    for k in order {
                         match img.render_frame(k) {
-                            Ok(r) => println!("keyframe {k}: ok, {} colour + {} extra channels", r.color_channels().len(), r.extra_channels().1.len()),
+                            Ok(r) => {
+                                let mut h = 0xcbf29ce484222325u64;
+                                for p in r.image_planar() {
+                                    for v in p.buf() {
+                                        h = (h ^ v.to_bits() as u64).wrapping_mul(0x100000001b3);
+                                    }
+                                }
+                                println!("keyframe {k}: ok, {} colour + {} extra channels, sample hash {h:016x}, raw grid of channel 0: {}x{}", r.color_channels().len(), r.extra_channels().1.len(), r.color_channels()[0].width(), r.color_channels()[0].height());
+                                // VERIF_PX=x,y prints the samples at that buffer position
+                                if let Ok(px) = std::env::var("VERIF_PX") {
+                                    let v: Vec<usize> = px.split(',').filter_map(|s| s.parse().ok()).collect();
+                                    for (c, p) in r.image_planar().iter().enumerate() {
+                                        let (w, h) = (p.width(), p.height());
+                                        if v.len() == 2 && v[0] < w && v[1] < h {
+                                            println!("  channel {c} ({w}x{h}) at ({},{}) = {:?}", v[0], v[1], p.buf()[v[1] * w + v[0]]);
+                                        }
+                                    }
+                                }
+                            }
                             Err(e) => println!("keyframe {k}: error {e}"),
                         }
                     }
@@ -119,6 +142,7 @@ fn main() {
                     x ^= x << 17;
                     *b = (x >> 24) as u8;
                 }
+                jxlref::src::append_tail_seed(&mut choice, x);
                 let mut src = jxlref::src::Src::new(&choice);
                 let mut bytes = if i % 5 == 4 {
                     jxlref::gen::jpeg::gen_jpeg_case(&mut src, &Default::default()).jxl
